@@ -48,18 +48,24 @@ func (m *MethodScope) AddVar(vr *types.Var, suffix string) *Var {
 
 func (m *MethodScope) resolveVarNameConflict(suggested string) string {
 	for n := 1; ; n++ {
-		_, ok := m.searchVar(suggested + strconv.Itoa(n))
-		if ok {
+		name := suggested + strconv.Itoa(n)
+		if _, ok := m.searchVar(name); ok {
+			continue
+		}
+		if _, ok := m.registry.searchImport(name); ok {
 			continue
 		}
 
 		if n == 1 {
-			conflict, _ := m.searchVar(suggested)
-			conflict.Name += "1"
-			m.conflicted[suggested] = true
-			n++
+			// The variable carrying the bare name may have been renamed
+			// since (it clashed with an import); there is nothing to move then.
+			if conflict, ok := m.searchVar(suggested); ok {
+				conflict.Name = name
+				m.conflicted[suggested] = true
+				continue
+			}
 		}
-		return suggested + strconv.Itoa(n)
+		return name
 	}
 }
 
